@@ -1075,3 +1075,41 @@ func (r *Run) MustCall(fnName, match, why string) {
 	}
 	r.pass("K2-must-call", fnName, construct, "", why, sites[0].File, sites[0].Line)
 }
+
+// StoreContext: fn has a store whose canonical form starts with prefix, and the set of plain-branch
+// conditions under which it executes is exactly wantCtx (" & "-joined, any order; "" = unconditional).
+func (r *Run) StoreContext(fnName, prefix, wantCtx, why string) {
+	fn := r.fn(fnName)
+	if fn == nil {
+		return
+	}
+	prefix = r.X(prefix)
+	file, line := r.P.FnPos(fn)
+	construct := prefix + "… exactly when " + wantCtx
+	for _, e := range r.P.Effects(fn) {
+		if e.Kind != "store" || !strings.HasPrefix(e.Canon, prefix) {
+			continue
+		}
+		var cs []string
+		seen := map[string]bool{}
+		for _, c := range r.blockCtx(fn, e.Instr.Block()) {
+			if s := c.String(); !seen[s] {
+				seen[s] = true
+				cs = append(cs, s)
+			}
+		}
+		sort.Strings(cs)
+		got := strings.Join(cs, " & ")
+		want := strings.TrimPrefix(normFull("x @ "+r.X(wantCtx)), "x @ ")
+		if wantCtx == "" {
+			want = ""
+		}
+		if got == want {
+			r.pass("K2-store-context", fnName, construct, "", why, e.File, e.Line)
+		} else {
+			r.viol("K2-store-context", fnName, construct, fmt.Sprintf("the store at %s:%d now executes under `%s` instead of `%s`: on the other paths the value is not recomputed", e.File, e.Line, got, want), why, e.File, e.Line)
+		}
+		return
+	}
+	r.viol("K2-store-context", fnName, construct, "store not found", why, file, line)
+}
